@@ -3,7 +3,7 @@
 //! that overruns the `Vec` buffer (the class of defect recorded in toodee's 0.6.0 changelog) is
 //! turned into an observable event (`redzone_ok = false`) instead of silent heap corruption.
 use std::alloc::{GlobalAlloc, Layout, System};
-use std::sync::atomic::{AtomicBool, AtomicUsize, Ordering};
+use std::sync::atomic::{AtomicBool, AtomicIsize, AtomicUsize, Ordering};
 
 pub struct Canary;
 
@@ -14,6 +14,36 @@ pub const POISON: u8 = 0xA5;
 const FREED: u8 = 0xDD;
 
 static BAD: AtomicBool = AtomicBool::new(false);
+// memory exhaustion as an environment fault: the k-th allocation request from now on is refused (once)
+static FAIL_IN: AtomicIsize = AtomicIsize::new(-1);
+static FAIL_FIRED: AtomicBool = AtomicBool::new(false);
+
+#[inline]
+fn refuse_now() -> bool {
+    let v = FAIL_IN.load(Ordering::Relaxed);
+    if v < 0 {
+        false
+    } else if v == 0 {
+        FAIL_IN.store(-1, Ordering::Relaxed);
+        FAIL_FIRED.store(true, Ordering::Relaxed);
+        true
+    } else {
+        FAIL_IN.store(v - 1, Ordering::Relaxed);
+        false
+    }
+}
+
+/// The `k`-th (0-based) allocation or reallocation request from now on returns null, once.
+pub fn arm_fail(k: u32) {
+    FAIL_FIRED.store(false, Ordering::Relaxed);
+    FAIL_IN.store(k as isize, Ordering::Relaxed);
+}
+
+/// Disarm; returns whether a request was refused since `arm_fail`.
+pub fn disarm_fail() -> bool {
+    FAIL_IN.store(-1, Ordering::Relaxed);
+    FAIL_FIRED.load(Ordering::Relaxed)
+}
 static BAD_COUNT: AtomicUsize = AtomicUsize::new(0);
 
 #[inline]
@@ -42,6 +72,9 @@ unsafe fn zones_ok(user: *mut u8, size: usize, align: usize) -> bool {
 
 unsafe impl GlobalAlloc for Canary {
     unsafe fn alloc(&self, layout: Layout) -> *mut u8 {
+        if refuse_now() {
+            return std::ptr::null_mut();
+        }
         let fp = front_pad(layout.align());
         let total = fp + layout.size() + RZ;
         let l = match Layout::from_size_align(total, layout.align()) {
